@@ -14,4 +14,6 @@ go build -tags verif -o .bin/evcheck ./cmd/evcheck
 go build -tags verif -overlay .gen/overlay-apicheck/overlay.json -o .bin/apicheck ./cmd/apicheck
 go build -tags verif -o .bin/trigcheck ./cmd/trigcheck
 go build -tags verif -o .bin/svccheck ./cmd/svccheck
+.bin/rewrite -maporder keyperimpl/shutterservice -vos "" -out .gen/overlay-synccheck
+go build -tags verif -overlay .gen/overlay-synccheck/overlay.json -o .bin/synccheck ./cmd/synccheck
 echo setup ok
